@@ -15,7 +15,9 @@ CONSTANTS
   NameMap <- NmId
   PForms <- PfAll
   Containers <- CtList
-  OvKVals <- Ov3
+  OvKVals <- OvZ
+  SForms <- SfList
+  KeySortSeq <- SortId
 INVARIANT PolyAgreesWithFold
 INVARIANT PermutationInvariant
 INVARIANT InactiveNotInExponent
